@@ -5,6 +5,8 @@ import (
 	"go/types"
 	"sort"
 	"strings"
+
+	"golang.org/x/tools/go/ssa"
 )
 
 // Spec functions are compiled to SMT functions that take the heap components
@@ -426,13 +428,35 @@ func (vc *VC) specDecls() string {
 			fmt.Fprintf(&b, "(define-fun spec_%s %s %s)\n", si0.sf.Name, sig(si0), si0.body)
 			continue
 		}
-		var heads, bodies []string
+		// recursive groups: uninterpreted symbols with definitional axioms
+		// triggered on their own applications (one-level unfolding by
+		// E-matching); this behaves better with the frame axioms than
+		// define-funs-rec.
 		for _, n := range comp {
 			si := tab.infos[n]
-			heads = append(heads, "(spec_"+n+" "+sig(si)+")")
-			bodies = append(bodies, si.body)
+			var sorts []string
+			for _, c := range si.comps {
+				sorts = append(sorts, vc.compSort(c))
+			}
+			for i := range si.sf.Params {
+				sorts = append(sorts, sortOfType(si.ptypes[i]))
+			}
+			fmt.Fprintf(&b, "(declare-fun spec_%s (%s) %s)\n", n, strings.Join(sorts, " "), si.rsort)
 		}
-		fmt.Fprintf(&b, "(define-funs-rec (%s) (%s))\n", strings.Join(heads, " "), strings.Join(bodies, " "))
+		for _, n := range comp {
+			si := tab.infos[n]
+			var binders, args []string
+			for _, c := range si.comps {
+				binders = append(binders, "("+vc.specParamHeap(c)+" "+vc.compSort(c)+")")
+				args = append(args, vc.specParamHeap(c))
+			}
+			for i, p := range si.sf.Params {
+				binders = append(binders, "(|a:"+p.Name+"| "+sortOfType(si.ptypes[i])+")")
+				args = append(args, "|a:"+p.Name+"|")
+			}
+			app := sx("spec_"+n, args...)
+			fmt.Fprintf(&b, "(assert (forall (%s) (! (= %s %s) :pattern (%s))))\n", strings.Join(binders, " "), app, si.body, app)
+		}
 	}
 	return b.String()
 }
@@ -548,4 +572,180 @@ func (vc *VC) specEntryFrame(sf *SpecFunc, si *specInfo, st *State) {
 	app1 := sx("spec_"+sf.Name, newArgs...)
 	app0 := sx("spec_"+sf.Name, oldArgs...)
 	vc.global(fmt.Sprintf("(forall (%s) (! (=> %s (= %s %s)) :pattern (%s)))", strings.Join(binders, " "), and(guards...), app1, app0, app1))
+}
+
+func (vc *VC) snapshotHeaps(st *State) map[string]string {
+	m := make(map[string]string, len(st.heaps))
+	for k, v := range st.heaps {
+		m[k] = v
+	}
+	return m
+}
+
+// relevantSpecs: recursive spec functions reachable from the contracts of the
+// function under verification and of the functions it calls.
+func (vc *VC) relevantSpecs() map[string]bool {
+	if vc.relSpecs != nil {
+		return vc.relSpecs
+	}
+	vc.relSpecs = map[string]bool{}
+	direct := map[string]bool{}
+	add := func(fc *FuncContract) {
+		if fc == nil {
+			return
+		}
+		var cls []*Clause
+		cls = append(cls, fc.Requires...)
+		cls = append(cls, fc.Ensures...)
+		for _, l := range fc.Loops {
+			cls = append(cls, l...)
+		}
+		for _, c := range cls {
+			if c.E != nil {
+				specCalls(c.E, vc.prog.contracts.Specs, direct)
+			}
+		}
+	}
+	add(vc.fc)
+	if vc.fn != nil {
+		for _, b := range vc.fn.Blocks {
+			for _, ins := range b.Instrs {
+				if ci, ok := ins.(ssa.CallInstruction); ok {
+					if f := vc.prog.resolveFuncValue(ci.Common().Value); f != nil {
+						add(vc.prog.contracts.Funcs[vc.prog.funcKey(f)])
+					}
+				}
+			}
+		}
+	}
+	var visit func(n string)
+	visit = func(n string) {
+		if vc.relSpecs[n] {
+			return
+		}
+		vc.relSpecs[n] = true
+		if sf := vc.prog.contracts.Specs[n]; sf != nil && sf.Body != nil {
+			calls := map[string]bool{}
+			specCalls(sf.Body, vc.prog.contracts.Specs, calls)
+			for c := range calls {
+				visit(c)
+			}
+		}
+	}
+	for n := range direct {
+		visit(n)
+	}
+	return vc.relSpecs
+}
+
+// storeSpecFrames emits frame facts for recursive spec predicates across a
+// store (or allocation with zero-initialisation):
+//   rule A  the written object was allocated in this function and its address
+//           has not been used for anything but loads and stores yet: nothing
+//           allocated before it can reach it (heap closure), so predicates
+//           over earlier objects are unaffected;
+//   rule S  for predicates declared "ordered" (their definition only descends
+//           to children allocated after the parent): a store into an object
+//           allocated in this function before the predicate's first argument
+//           cannot affect it, the other pointer arguments being pre-existing.
+func (vc *VC) storeSpecFrames(before map[string]string, st *State, alloc *ssa.Alloc, addr string) {
+	if vc.fn == nil || vc.preparing {
+		return
+	}
+	changed := map[string]bool{}
+	for k, v := range st.heaps {
+		if before[k] != v {
+			changed[k] = true
+		}
+	}
+	if len(changed) == 0 {
+		return
+	}
+	ruleA := alloc != nil && alloc.Heap || alloc != nil && !vc.isCell(alloc)
+	if ruleA && vc.escaped[alloc] {
+		ruleA = false
+	}
+	bound := ""
+	if ruleA {
+		bound = vc.allocBound[alloc]
+		if bound == "" {
+			ruleA = false
+		}
+	}
+	var names []string
+	for n := range vc.relevantSpecs() {
+		sf := vc.prog.contracts.Specs[n]
+		if sf != nil && !sf.Opaque && sf.Body != nil && (vc.prog.isRecursiveSpec(n) || sf.NoInline) {
+			names = append(names, n)
+		}
+	}
+	sort.Strings(names)
+	oldHeap := func(c string) string {
+		if h, ok := before[c]; ok {
+			return h
+		}
+		return vc.entryHeap(c)
+	}
+	for _, n := range names {
+		sf := vc.prog.contracts.Specs[n]
+		si := vc.specInfoFor(sf)
+		touches := false
+		for _, c := range si.comps {
+			if changed[c] {
+				touches = true
+			}
+		}
+		if !touches {
+			continue
+		}
+		ruleS := sf.Ordered && addr != ""
+		if !ruleA && !ruleS {
+			continue
+		}
+		vc.usedSpecs[n] = true
+		emit := func(useA bool) {
+			var binders, guards, newArgs, oldArgs []string
+			for _, c := range si.comps {
+				newArgs = append(newArgs, vc.heap(st, c))
+				oldArgs = append(oldArgs, oldHeap(c))
+			}
+			for i, p := range sf.Params {
+				v := "|f:" + p.Name + "|"
+				binders = append(binders, "("+v+" "+sortOfType(si.ptypes[i])+")")
+				var r string
+				switch kindOf(si.ptypes[i]) {
+				case KPtr, KMap:
+					r = sx("rootOf", v)
+				case KSlice:
+					r = sx("rootOf", sx("sarr", v))
+				}
+				if r != "" {
+					if useA {
+						guards = append(guards, sx("<", r, bound))
+					} else if i == 0 {
+						guards = append(guards, sx("<", sx("rootOf", addr), r))
+					} else {
+						guards = append(guards, sx("<", r, "|alloc@0|"))
+					}
+				}
+				newArgs = append(newArgs, v)
+				oldArgs = append(oldArgs, v)
+			}
+			if !useA {
+				guards = append(guards, sx("<=", "|alloc@0|", sx("rootOf", addr)))
+				vc.usedExt["frame rule for 'ordered' spec predicates (children allocated after parents, A4)"] = true
+			} else {
+				vc.usedExt["frame axiom for recursive spec predicates (heap closure, A4)"] = true
+			}
+			app1 := sx("spec_"+n, newArgs...)
+			app0 := sx("spec_"+n, oldArgs...)
+			vc.local(fmt.Sprintf("(forall (%s) (! (=> %s (= %s %s)) :pattern (%s)))", strings.Join(binders, " "), and(guards...), app1, app0, app1))
+		}
+		if ruleA {
+			emit(true)
+		}
+		if ruleS {
+			emit(false)
+		}
+	}
 }
